@@ -2,7 +2,7 @@
 // usage: c08 <what> <seed0> <nruns>
 //   what = promise | latch            random program per seed (printed in the RUN header as prog=...)
 //        | prog:<promise|latch>:<N>:<program>   fixed program, one seeded schedule per run
-//        | wrap                       futex-word wrap-around witness (waiter count reaches READY_MASK)
+//        | wrap                       regression: the waiter mark of the futex word is a flag, never a growing count
 // program := spec '/' spec '/' ... ; first spec = main thread before the threads start, last spec = main
 //            thread after joining them, the others = one spawned thread each.  spec := op{,op}
 //   s<v> promise.set_value(v)     d<k> latch.count_down(k)
@@ -380,11 +380,12 @@ static void run_case(uint64_t seed, bool latch_mode, int latch_n, const std::str
   }
 }
 
-// The futex word counts waiters in its low 31 bits and never decrements: every wait_for that times out leaves its
-// increment behind.  2^31 such calls cannot be executed here (a zero-timeout futex wait costs ~100 us natively), so this
-// mode starts from the word a future holds after `2^31 - k` timed-out wait_for calls (written directly, the only
-// shortcut) and shows on the real code that the next wait_for / get report a value nobody set.  It documents why the
-// theorems carry the hypothesis `adds < 2^31`; it is not part of the pass/fail plan of the check.
+// Regression for the waiter mark of the futex word (fixed in /repo e39f62f).  Before the fix wait_slow / wait_for_slow did
+// `fetch_add(1)` and never decremented: every wait_for that timed out left +1 behind, and after 2^31 such calls the low
+// 31 bits carried into READY_MASK, so wait_for / get reported a value nobody had set.  Now the mark is a flag
+// (`fetch_or(1)`).  (a) 20 timed-out wait_for(0) calls must leave the word at 1; (b) from the word a pre-fix future
+// held after `2^31 - k` timed-out waits (written directly — 2^31 real calls would take days) the next wait_for calls
+// must still return false.  On the pre-fix code (a) reports `waiter-count-grows` and (b) `waitfor-true-unset`.
 static void run_wrap(uint64_t seed) {
   Promise<Val> promise;
   auto fut = promise.get_future();
@@ -395,16 +396,21 @@ static void run_wrap(uint64_t seed) {
   vrt_name(&ctx->_futex, 4, "futex");
   vrt_name(&ctx->_head, 8, "head");
   unsigned k = 1 + (unsigned)(seed % 3);
-  ctx->_futex.value().store(0x80000000u - k, std::memory_order_relaxed);
-  vrt_begin(seed);
-  printf("RUN %lu mode=wrap latch=- prog=w0x%u preset=%u\n", (unsigned long)seed, k + 1, 0x80000000u - k);
-  for (unsigned i = 0; i < k + 1; ++i) {
+  auto one_wait = [&](const char* phase) {
     vrt_event("call waitfor 0");
     bool ok = fut.wait_for(std::chrono::nanoseconds(0));
     vrt_event("ret waitfor %d", (int)ok);
     if (ok && !g_constructed)
-      vrt_event("ORACLE waitfor-true-unset wait_for(0) returned true after 2^31 timed-out waits although set_value was never called");
-  }
+      vrt_event("ORACLE waitfor-true-unset wait_for(0) returned true (%s) although set_value was never called", phase);
+  };
+  vrt_begin(seed);
+  printf("RUN %lu mode=wrap latch=- prog=w0x20,preset,w0x%u\n", (unsigned long)seed, k + 1);
+  for (int i = 0; i < 20; ++i) one_wait("fresh future");
+  uint32_t word = *reinterpret_cast<volatile uint32_t*>(&ctx->_futex);
+  *reinterpret_cast<volatile uint32_t*>(&ctx->_futex) = 0x80000000u - k;
+  vrt_event("preset %u", 0x80000000u - k);
+  for (unsigned i = 0; i < k + 1; ++i) one_wait("after 2^31 timed-out waits on the pre-fix code");
+  if (word > 1) vrt_event("ORACLE waiter-count-grows futex word was %u after 20 timed-out wait_for calls (must stay a flag)", word);
   vrt_event("call set 7");
   g_expect = 7;
   promise.set_value(7);
